@@ -24,6 +24,9 @@ CLAIMED = {
  "C18": dict(technique="static analysis: guarded-by lockset (incl. TryLock edges and caller-holds helpers) for cache and cleaner state, dominance-based entry state-machine order, error/panic path rules, accounting pair rules, ownership of the bucket list and a deviant-idiom detector with a proof of wrongness",
              text="The locking discipline, the order in which an entry becomes valid or is abandoned, and the pairing of every generation move with its counter update are decided on all paths; they are necessary for coherence and correct accounting. The numeric bound after cleaning and coherence beyond the lockset are not decided.",
              note="Trusted: go/ssa on the generic method bodies; single maintenance goroutine for the cleaner's unlocked fields (stated in the code).", ref="§3 C18"),
+ "C12": dict(technique="static analysis: finite-domain (enum) reachability of panicking default branches through parameters and call sites up to the producer, type-switch coverage against every concrete type boxed into the interface, per-site caller-guard checks, SCC detection in the static call graph with a depth-bound test, error-flow at every parse call site",
+             text="Totality half of the property only: decides for every mapping type and every call path that no explicit panic is reachable from the three parse entry points, and that recursion driven by the input has a bound; preservation of boolean meaning needs evaluation of trees and is not decided.",
+             note="Trusted: go/ssa; enum values are declared constants; recursion through interface/function values is not followed; one frozen exemption (ParseSeqQL 'lexer is not end') with its reason in c12.go.", ref="§3 C12"),
 }
 
 NOT_YET = "check not built yet in this round (planned in DESIGN.md §3); nothing is claimed for it"
